@@ -401,6 +401,163 @@ PROPS = {
         "assumptions": ["no single item larger than the capacity (hypothesis of C13_capacity; the suites also generate larger items and then switch the capacity monitor off)",
                         "Mutex / std::fs as in C12"],
     },
+    "C08": {
+        "modules": ["XetProps.C08"],
+        "theorems": [
+            "Xet.Xorb.C08_sound_seekable",
+            "Xet.Xorb.C08_sound_seekable_nonempty",
+            "Xet.Xorb.C08_sound_streaming",
+            "Xet.Xorb.C08_sound_streaming_shapes",
+            "Xet.Xorb.C08_complete",
+            "Xet.Xorb.C08_complete_own_hash",
+            "Xet.Xorb.C08_validators_agree",
+            "Xet.Xorb.C08_validators_agree_general",
+            "Xet.Xorb.C08_serialized_decodes",
+            "Xet.Xorb.C08_decodes_unique",
+            "Xet.Xorb.C08_footer_parser_total",
+            "Xet.Xorb.C08_footer_parser_no_panic",
+            "Xet.Xorb.C08_chunk_decoder_total",
+            "Xet.Xorb.C08_alloc_bounded",
+            "Xet.Xorb.C08_no_panic",
+            "Xet.Xorb.C08_no_panic_by_length",
+            "Xet.Xorb.C08_validate_outcomes",
+        ],
+        "suites": ["xorb_validate"],
+        "level_text": "Soundness for EVERY byte string, codec (no round-trip assumption), hash primitives and maxChunk: if the seekable or the "
+                      "streaming validator accepts obj for h then the chunk region decodes to chunks whose recomputed root equals h and the footer it "
+                      "relied on (hashes, boundaries, unpacked offsets, position) matches them - for all three accept shapes of the streaming validator "
+                      "(footer, no footer, v0). Completeness: a serialized xorb is accepted by both validators for its own hash and rejected for any "
+                      "other; the two validators agree on arbitrary input with >= 1 chunk. Totality: the footer parser never panics and its tables "
+                      "are bounded by the bytes available; the validators never panic under explicit size bounds (< 2^32; the region beyond is F7). "
+                      "Tied to the Rust by ~8000 mutated inputs per run (every header byte and footer byte flipped, truncation at every offset, "
+                      "spliced/duplicated/dropped chunks, inflated counts, v0 and footer-less objects, random bytes): both validators' verdicts equal "
+                      "the model's (with an independent Lean LZ4 decoder); any panic or unsound accept is a monitor failure.",
+        "design_ref": "DESIGN.md section 4, C08",
+        "technique": "Lean 4 proof (invariants over the validators' chunk walks; arbitrary bytes) + mutation-based differential correspondence",
+        "rule": "14 [120] valid objects (1-40 chunks, all schemes) x (valid, other hash, no footer, v0, every chunk-header byte flip, every footer "
+                "byte flip [sampled for large objects], content flips, truncation at every offset, dup/drop/swap chunk, trailing bytes, inflated "
+                "fields) + 150 [3000] random strings; distinct by hash(bytes, h); non-trivial = not accepted by the seekable validator",
+        "assumptions": ["no-panic theorems need obj.length + 2*maxChunk + 8 <= u32::MAX and declared numChunks*maxChunk <= u32::MAX (seekable); the "
+                        "excluded region (> 32768 maximal chunks) is the documented overflow F7 (dev-profile panic), not exercised in the quick tier",
+                        "LZ4 decoding is the independent Lean decoder, compared not proved",
+                        "the Rust prealloc_num_chunks cap is not modelled (allocation bound is stated on the parsed tables)"],
+    },
+    "C10": {
+        "modules": ["XetProps.C10"],
+        "theorems": [
+            "Xet.Shard.C10_flag_compare",
+            "Xet.Shard.C10_richer_variant",
+            "Xet.Shard.C10_merge_files_union",
+            "Xet.Shard.C10_unionFind",
+            "Xet.Shard.C10_merge_files_difference",
+            "Xet.Shard.C10_merge_cas_union",
+            "Xet.Shard.C10_merge_cas_difference",
+            "Xet.Shard.C10_setop_wf",
+            "Xet.Shard.C10_setop_wf_minimal",
+            "Xet.Shard.C10_same_file_implies_agree",
+            "Xet.Shard.C10_setop_scan",
+            "Xet.Shard.C10_union_lookup",
+            "Xet.Shard.C10_setop_difference_wf",
+            "Xet.Shard.C10_difference_lookup",
+            "Xet.Shard.C10_totals",
+            "Xet.Shard.C10_tables",
+            "Xet.Shard.C10_setop_dedup_truthful",
+            "Xet.Shard.C10_setop_bytes",
+            "Xet.Shard.C10_setop_bytes_closed",
+            "Xet.Shard.C10_refines_memory_difference",
+            "Xet.Shard.C10_refines_memory_union",
+            "Xet.Shard.C10_union_record_relation",
+            "Xet.Shard.C10_refines_memory_union_eq",
+            "Xet.Shard.C10_group_end",
+            "Xet.Shard.C10_union_chain",
+            "Xet.Shard.C10_consolidate_records",
+            "Xet.Shard.C10_consolidate_directory",
+        ],
+        "suites": ["shard_ops"],
+        "level_text": "For strictly sorted well-formed inputs: the merged file/xorb lists of union contain, for EVERY hash, exactly the record of the side "
+                      "that has it, and when both do the richer variant as the code defines it (first if flags equal or including, second if strictly "
+                      "including, merged header + first's segments + verification/metadata from whichever side has them if incomparable); difference "
+                      "= exactly the second's records whose hash is not in the first. set_operation's output equals serialize of that content byte "
+                      "for byte, so every C09/C05 theorem (scan, every lookup incl. absent hashes and the 8-collision error, totals, tables, dedup "
+                      "truthfulness) applies to it; relation to the in-memory union/difference. Consolidation: grouping, union chains and the "
+                      "directory-level statement (retrievable keys preserved, returned shards exist and are named by content hash, only covered "
+                      "inputs deleted, finished-hash guard in event order).",
+        "design_ref": "DESIGN.md section 4, C10",
+        "technique": "Lean 4 proof (refinement of the streaming merge to the in-memory spec, lifted through the C09 round trip) + byte-exact differential correspondence",
+        "rule": "60 [700] shard pairs (disjoint / identical / empty / overlapping with all flag pairs for the same file), union and difference each; "
+                "14 [150] session directories of 1-7 shards with distinct mtimes, thresholds 1, sizes/2+-, 2^30; distinct by content hash",
+        "assumptions": ["SameFileSameSegments (verify_same_file is a debug assertion only): needed only for incomparable flags",
+                        "combined record count < 2^32 (u32 table indices, unchecked in the Rust)",
+                        "the order among equal truncated chunk hashes (unstable sort) is canonicalised; a merged shard is identified by its canonical bytes",
+                        "thresholds above ~2^30 are not exercised: consolidate preallocates 3 x target_max_size bytes (observation)"],
+    },
+    "C16": {
+        "modules": ["XetProps.C16"],
+        "theorems": [
+            "Xet.Uploads.C16_order",
+            "Xet.Uploads.C16_success_means_all_stored",
+            "Xet.Uploads.C16_not_swallowed",
+            "Xet.Uploads.C16_error_reported",
+            "Xet.Uploads.C16_unreported_window",
+            "Xet.Uploads.C16_reported_by_next_register",
+            "Xet.Uploads.C16_reported_by_finalize",
+            "Xet.Uploads.C16_latch",
+            "Xet.Uploads.C16_prefix_F9_witness",
+        ],
+        "suites": ["session_faults"],
+        "level_text": "Over ALL sequences of register / task-completion / finalize events (any number of xorbs, any completion order and outcomes, events "
+                      "after finalize): shard uploads start only when every put of the session completed successfully; a session whose finalize "
+                      "returns Ok has all puts and shard uploads successful; any failed upload makes finalize fail and some API call return an error "
+                      "(the pre-fix history F9 is kept as a decide'd witness of the unlatched step function). Tied to the Rust by real sessions "
+                      "whose puts are held and released with scripted outcomes and orders and whose shard uploads can fail; the observed history is "
+                      "replayed through the model. Partial: tokio JoinSet/abort-on-drop, the upload semaphore and real timing are modelled abstractly; "
+                      "xorbs of earlier sessions are covered by C01/C11.",
+        "design_ref": "DESIGN.md section 4, C16",
+        "technique": "Lean 4 proof (inductive invariant over all event sequences) + fault-injecting differential correspondence",
+        "rule": "3 limit configurations x 40 [600] scenarios: each single put failing in turn, random multi-fault sets, shard upload failures, random "
+                "release orders, continue-or-stop after an API error; distinct by trace; non-trivial = at least two upload tasks",
+        "assumptions": ["register is atomic in the model (the Rust releases the lock between reap and spawn while waiting for a permit)",
+                        "after a failing finalize the remaining puts are aborted on drop (timing dependent): per-task outcomes are compared only for successful sessions",
+                        "non-store error exits (permit, add_cas_block, shard flush) are not modelled"],
+    },
+    "C18": {
+        "modules": ["XetProps.C18"],
+        "theorems": [
+            "Xet.Shard.C18_expiry",
+            "Xet.Shard.C18_expiry_not_loaded",
+            "Xet.Shard.C18_expiry_deleted_iff",
+            "Xet.Shard.C18_expiry_grace",
+            "Xet.Shard.C18_expiry_deleted_of_grace",
+            "Xet.Shard.C18_expiry_deleted_and_loaded_iff",
+            "Xet.Shard.C18_expiry_deleted_not_loaded",
+            "Xet.Shard.C18_expiry_never",
+            "Xet.Shard.C18_export",
+            "Xet.Shard.C18_export_bytes",
+            "Xet.Shard.C18_export_footer",
+            "Xet.Shard.C18_export_parsed",
+            "Xet.Shard.C18_keyed_block",
+            "Xet.Shard.C18_export_content_wf",
+            "Xet.Shard.C18_no_raw_hash",
+            "Xet.Shard.C18_export_zero_key",
+            "Xet.Shard.C18_dedup_preserved_shard",
+            "Xet.Shard.C18_dedup_no_chunk_table",
+            "Xet.Shard.C18_dedup_truthful",
+            "Xet.Shard.C18_dedup_truthful_raw",
+        ],
+        "suites": ["keyed"],
+        "level_text": "For every well-formed shard, key, time and all eight include-flag combinations: exportKeyed(serialize m) equals the closed-form "
+                      "serialization with every chunk hash in the xorb lists and the chunk table replaced by its keyed form (zero key = identity), "
+                      "xorb and file hashes kept, file records kept or dropped as requested, tables present as requested, footer key/creation/"
+                      "expiry/totals; parsed back it is exactly that content; no raw chunk hash survives unless it equals a keyed form. Dedup "
+                      "lookups with unkeyed hashes on the exported shard give the same answer as on the source under no-collision hypotheses on "
+                      "the query, and are truthful always. Expiry: exact truth table of loaded/deleted incl. saturation. The shard-manager layer is "
+                      "covered by the suite's monitors only (partial).",
+        "design_ref": "DESIGN.md section 4, C18",
+        "technique": "Lean 4 proof (closed form of the export, lifted through the C09 round trip) + byte-exact differential correspondence",
+        "rule": "24 [250] shards x 8 flag combinations x zero/random key x validity 0..21 days; byte scan for raw chunk hashes; dedup queries before/"
+                "after; expiry by patching the footer of a copy to now+-d, 0, u64::MAX with grace 0/10/1000/u64::MAX",
+        "assumptions": ["creation time is read from the produced footer (clock is an oracle)", "expiry arithmetic saturates in the model; the Rust panics for validity >= ~9.2e18 s (SystemTime overflow), not exercised"],
+    },
 }
 
 HOOK_COMMITS = ["9bb2102", "a056c58", "25c3aff", "24644df", "9cc9f64", "baf5f6a"]
